@@ -276,6 +276,7 @@ def session(ctx, exe, r, nexpr, nquery, have_drv, stats):
     for k in r.sample(trees, min(len(trees), 40)):
         ops.append("clone_deeper %d" % k)
         ops.append("clone %d" % k)
+        ops.append("clone_frame %d" % k)
     pairs = [(k, k) for k in r.sample(trees, min(len(trees), 10))]
     pairs += [(r.choice(trees), r.choice(trees)) for _ in range(60)]
     # a tree against its neighbours (duplicates and variants are adjacent in the pool)
@@ -289,7 +290,7 @@ def session(ctx, exe, r, nexpr, nquery, have_drv, stats):
     pairs += [(x, y) for x in sp for y in sp if x != y]
     for a, bb in pairs:
         ops.append("equal %d %d" % (a, bb))
-    lines3 = lines2 + ["TREE %d" % k for k in trees] + ["NSYMS"]
+    lines3 = lines2 + ["TREE %d" % k for k in trees] + ["NSYMS", "RESOLVE"]
     rc, out, err, _ = core.run_exe(exe, [], stdin_text="\n".join(lines3) + "\n", timeout=300)
     o = out.split("\n")
     tree_lines = [l for l in o if l.startswith("TREE ")]
@@ -300,9 +301,13 @@ def session(ctx, exe, r, nexpr, nquery, have_drv, stats):
         _, k, sx = l.split(" ", 2)
         tree_sx[int(k)] = sx
     nsyms = 0
+    resolve_line = "RESOLVE"
     for l in o:
         if l.startswith("NSYMS "):
             nsyms = int(l.split()[1])
+        if l.startswith("RESOLVE"):
+            resolve_line = l
+    stats["empty_children"] += sum(sx.count("()") for sx in tree_sx.values())
     # subst / clone_sym ops need the symbols occurring in the tree
     for k in r.sample(trees, min(len(trees), 40)):
         syms = sorted({int(x) for x in re.findall(r"#(\d+)", tree_sx[k])})
@@ -356,7 +361,7 @@ def session(ctx, exe, r, nexpr, nquery, have_drv, stats):
     stats["texts_accepted"] += len(accepted)
     # Lean side
     if have_drv:
-        llines = ["RESET"] + ["T %d %s" % (k, tree_sx[k]) for k in trees] + ops
+        llines = ["RESET"] + ["T %d %s" % (k, tree_sx[k]) for k in trees] + [resolve_line] + ops
         rc2, out2, err2, _ = core.run_exe(core.lean_exe("drv_c19"), [], stdin_text="\n".join(llines) + "\n", timeout=600)
         lo_all = out2.split("\n")
         res["dis"] = []
@@ -365,7 +370,7 @@ def session(ctx, exe, r, nexpr, nquery, have_drv, stats):
                 res["dis"].append({"op": "T %d" % k, "impl": "a tree produced by the parser", "model": l,
                                    "trees": {str(k): tree_sx[k][:1500]}})
         stats["hypotheses_checked"] = stats.get("hypotheses_checked", 0) + ntrees
-        lo = lo_all[1 + len(trees):]
+        lo = lo_all[2 + len(trees):]
         for idx, op in enumerate(ops):
             a = impl_ops[idx] if idx < len(impl_ops) else "<missing>"
             bq = lo[idx] if idx < len(lo) else "<missing>"
@@ -377,6 +382,101 @@ def session(ctx, exe, r, nexpr, nquery, have_drv, stats):
                                    "trees": {k: tree_sx[int(k)][:1500] for k in op.split()[1:2]}})
         stats["corr_cases"] += len(ops)
     return res
+
+
+# ------------------------------------------------------------------------------------------------
+# process-member typing: the type of P.x is the declared type with P's arguments substituted (type_t::subst via expr_dot)
+# ------------------------------------------------------------------------------------------------
+def sx_parse(s):
+    toks = s.replace("(", " ( ").replace(")", " ) ").split()
+    stack = [[]]
+    for t in toks:
+        if t == "(":
+            stack.append([])
+        elif t == ")":
+            x = stack.pop()
+            stack[-1].append(x)
+        else:
+            stack[-1].append(t)
+    return stack[0]
+
+
+def sx_str(x):
+    return x if isinstance(x, str) else "(" + " ".join(sx_str(y) for y in x) + ")"
+
+
+def dot_type_session(ctx, exe, r, stats):
+    def pexpr(d):
+        if d <= 0 or r.random() < 0.3:
+            return r.choice(["n", "m", "N", "n", "m", "1", "2", "0", "5"])
+        return "%s %s %s" % (pexpr(d - 1), r.choice(["+", "*", "+"]), pexpr(d - 1))
+
+    def aexpr(d):
+        if d <= 0 or r.random() < 0.4:
+            return r.choice(["N", "1", "2", "3", "N"])
+        return "%s %s %s" % (aexpr(d - 1), r.choice(["+", "*"]), aexpr(d - 1))
+    nv = r.randint(3, 7)
+    decls, bounds = [], {}
+    for k in range(nv):
+        if r.random() < 0.7:
+            lo, hi = pexpr(1), pexpr(2)
+            decls.append("int[%s, %s] v%d;" % (lo, hi, k))
+            bounds["v%d" % k] = ("range", lo, hi)
+        else:
+            sz = pexpr(1)
+            decls.append("int w%d[%s];" % (k, sz))
+            bounds["w%d" % k] = ("array", sz)
+    insts = []
+    for k in range(r.randint(1, 3)):
+        insts.append(("Q%d" % k, aexpr(1), aexpr(1)))
+    xml = ('<?xml version="1.0" encoding="utf-8"?><nta><declaration>const int N = 3; int i;</declaration>'
+           '<template><name>P</name><parameter>const int n, const int m</parameter><declaration>%s</declaration>'
+           '<location id="id0"><name>L0</name></location><init ref="id0"/></template><system>%s system %s;</system></nta>'
+           % (escape(" ".join(decls)), escape(" ".join("%s = P(%s, %s);" % q for q in insts)), ", ".join(q[0] for q in insts)))
+    texts, expect = [], []
+
+    def sub(text, an, am):
+        return re.sub(r"\b[nm]\b", lambda mm: "(" + (an if mm.group(0) == "n" else am) + ")", text)
+    for qn, an, am in insts:
+        for v, bd in bounds.items():
+            texts.append("%s.%s" % (qn, v))
+            if bd[0] == "range":
+                exp = [sub(bd[1], an, am), sub(bd[2], an, am)]
+            else:
+                exp = ["0", "(" + sub(bd[1], an, am) + ") - 1"]
+            expect.append((len(texts) - 1, bd[0], exp))
+            texts += exp
+    lines = ["DOC " + xml.encode().hex()] + ["E " + t.encode().hex() for t in texts]
+    rc, out, err, _ = core.run_exe(exe, [], stdin_text="\n".join(lines) + "\n", timeout=120)
+    o = out.split("\n")
+    m = re.match(r"DOC errors=(\d+) pool=(\d+)", o[0] if o else "")
+    if rc != 0 or not m:
+        return [("crash", {"rc": rc, "stderr": err[-2000:], "xml": xml, "texts": texts})]
+    if int(m.group(1)) > 0:
+        return []
+    idx = {}
+    for k, l in enumerate(o[1:1 + len(texts)]):
+        mm = re.match(r"E (\d+)$", l)
+        if mm:
+            idx[k] = int(mm.group(1))
+    q = []
+    for k, kind, exp in expect:
+        if k in idx and k + 1 in idx and k + 2 in idx:
+            q += ["TYPE %d" % idx[k], "SEXP %d" % idx[k + 1], "SEXP %d" % idx[k + 2]]
+    rc, out, err, _ = core.run_exe(exe, [], stdin_text="\n".join(lines + q) + "\n", timeout=120)
+    o = out.split("\n")[len(lines):]
+    bad = []
+    for j in range(0, len(q) - 2, 3):
+        ty, lo, hi = o[j].split(" ", 2)[2], o[j + 1].split(" ", 2)[2], o[j + 2].split(" ", 2)[2]
+        t = sx_parse(ty)[0]
+        if t[0] == "ARRAY":
+            t = t[2]
+        got = (sx_str(t[2]), sx_str(t[3])) if t[0] == "RANGE" and len(t) >= 4 else ("?", "?")
+        stats["dot_types"] += 1
+        if got != (lo, hi):
+            bad.append(("mismatch", {"member": texts[int(q[j].split()[1]) - int(m.group(2))] if False else q[j], "type": ty,
+                                     "expected_bounds": [lo, hi], "xml": xml, "texts": texts}))
+    return bad
 
 
 def run(ctx):
@@ -402,7 +502,8 @@ def run(ctx):
     have_drv = os.path.exists(core.lean_exe("drv_c19")) and (ok or core.lake_build(["drv_c19"])[0])
     # 3 + 4 ---------------------------------------------------------------------------------------
     stats = {"docs_rejected": 0, "texts_rejected": 0, "texts_accepted": 0, "trees": 0, "nodes": 0, "oracle_checks": 0, "probe_ok": True,
-             "laws": {}, "kinds": {}, "corr_ops": {}, "corr_cases": 0, "equal_true": 0, "arity_probed": {}}
+             "laws": {}, "kinds": {}, "corr_ops": {}, "corr_cases": 0, "equal_true": 0, "arity_probed": {}, "empty_children": 0,
+             "dot_types": 0}
     nsess = 16 if not ctx.thorough else 250
     fails, dis, samples = [], [], []
     for sidx in range(nsess):
@@ -417,6 +518,13 @@ def run(ctx):
             dis.append((d, res))
         if sidx == 0 and res.get("texts"):
             samples = [t for _, t in res["texts"][:3]]
+    for _ in range(10 if not ctx.thorough else 100):
+        for kind, info in dot_type_session(ctx, exe, r, stats):
+            if kind == "crash":
+                ctx.finding("impl:crash:dot-type", "the harness died while typing process members", info)
+            else:
+                ctx.finding("dot_type_subst", "the type of a process member is not its declared type with the process arguments substituted: "
+                            "%s has %s, expected bounds %s" % (info["member"], info["type"][:200], info["expected_bounds"]), info)
     # classify oracle failures: key = law:shape
     by_key = {}
     for f, res in fails:
@@ -459,6 +567,7 @@ def run(ctx):
         "correspondence_ops": stats["corr_ops"], "equal_true_between_trees": stats["equal_true"],
         "trees": stats["trees"], "nodes": stats["nodes"], "distinct_nontrivial": stats["trees"],
         "theorem_hypotheses_checked_on_parsed_trees": stats.get("hypotheses_checked", 0),
+        "empty_subexpressions_in_parsed_trees": stats["empty_children"], "process_member_types_checked": stats["dot_types"],
         "texts_accepted": stats["texts_accepted"], "texts_rejected": stats["texts_rejected"], "docs_rejected": stats["docs_rejected"],
         "distribution": {"kinds_hit": len(stats["kinds"]), "kinds": dict(sorted(stats["kinds"].items(), key=lambda kv: -kv[1])),
                          "law_checks": stats["laws"],
